@@ -1,7 +1,181 @@
 import KM.Driver.Core
-/-! Driver for C02 (stub until the property's model is built). -/
+import KM.Model.CertFields
+import KM.Gen.C02
+/-! Driver for C02 (stateful: `cfg` lines set the configuration the following lines run under).
+`model`: the canonical line the model predicts for a `cert` / `expand` op; `judge`: the property's
+conditions applied to what the implementation returned. -/
 namespace KM.Driver.C02
+open KM.Util KM.CertFields
 
-def handler (_mode : String) : Option Handler := none
+structure DS where
+  cfg : Cfg
+  hasEd : Bool
+  realm : Bool
+
+def DS.init : DS := { cfg := { disableNorm := false, hostIdentity := [], exts := [] }, hasEd := false, realm := false }
+
+/-- keys as numbers: 1 = primary signer, 2 = Ed25519 signer, 7 = the submitted key -/
+def DS.st (s : DS) : St Nat :=
+  { signer := 1, ed := if s.hasEd then some 2 else none, preKnown := [1], preCAs := [] }
+
+def src : Src := KM.Gen.C02.src
+/-- the harness's password backend accepts every non-empty name -/
+def accepts (n : Str) : Bool := !n.isEmpty
+def expandFor (u t : Str) : Option Str := expandStr u t
+
+def unhexL (s : String) : Option Str := (unhex s).map String.toList
+def hexL (l : Str) : String := hex (String.ofList l)
+
+def parsePairs : List String → Option (List (Str × Str))
+  | [] => some []
+  | k :: v :: rest => do
+    let k' ← unhexL k
+    let v' ← unhexL v
+    let r ← parsePairs rest
+    pure ((k', v') :: r)
+  | _ => none
+
+def parseCfg : List String → Option DS
+  | dn :: host :: realm :: ed :: n :: pairs => do
+    let dn' ← parseBool dn
+    let host' ← unhexL host
+    let ed' ← parseBool ed
+    let n' ← n.toNat?
+    let ps ← parsePairs pairs
+    if ps.length ≠ n' then none
+    else pure { cfg := { disableNorm := dn', hostIdentity := host', exts := ps }, hasEd := ed', realm := realm != "~" }
+  | _ => none
+
+def parseKind (s : String) : Option KeyKind :=
+  if s == "rsa2048" then some .rsa2048 else if s == "rsa3072" then some .rsa3072
+  else if s == "p256" then some .p256 else if s == "p384" then some .p384
+  else if s == "ed25519" then some .ed25519 else none
+
+def parseCT (s : String) : Option CType :=
+  if s == "ssh" then some .ssh else if s == "x509" then some .x509 else if s == "k8s" then some .k8s else none
+
+def mkCred (s : DS) (mode : String) (login : Str) (pw : Bool) : Option Cred :=
+  if mode == "basic" then some (.basic login pw)
+  else if mode == "login" then some (loginCookie s.cfg.disableNorm accepts login pw)
+  else if mode == "cookie" then some (.cookie login)
+  else none
+
+def sortStrs (l : List String) : List String := (l.toArray.qsort (· < ·)).toList
+
+/-- candidate keys of the extension map: standard names and every configured key as expanded -/
+def candidates (s : DS) (u : Str) : List Str :=
+  (src.stdExt ++ s.cfg.exts.filterMap (fun e => expandFor u e.1)).eraseDups
+
+def extLine (keys : List Str) (m : SMap) : String :=
+  let items := keys.filterMap fun k => (m k).map fun v => s!"{hexL k}:{hexL v}"
+  if items.isEmpty then "-" else ",".intercalate (sortStrs items)
+
+def modelCert (s : DS) (ct : CType) (cred : Cred) (url : Str) (kind : KeyKind) : String :=
+  match handle src s.cfg s.st accepts expandFor cred url ct kind 7 with
+  | .status n => toString n
+  | .ssh c =>
+    let u := c.principals.headD []
+    s!"200 ssh principals={if c.principals.isEmpty then "-" else ",".intercalate (c.principals.map hexL)} key={boolStr (c.key == 7)} type={if c.userCert then "1" else "2"} keyid={hexL c.keyId} sigkey_published={boolStr ((publish s.st.preKnown s.st.ed s.st.signer).contains c.signatureKey)} verifies=1 crit=0 ext={extLine (candidates s u) c.exts}"
+  | .x509 c =>
+    s!"200 x509 cn={hexL c.cn} key={boolStr (c.key == 7)} ca={boolStr c.isCA} bc={boolStr c.bcValid} eku={if c.clientAuth then "2" else "-"} verifies={boolStr ((caList s.st.preCAs s.st.ed s.st.signer).contains c.issuer)}"
+
+def modelStep (s : DS) : List String → DS × String
+  | "cfg" :: rest =>
+    match parseCfg rest with
+    | some s' => (s', "ok")
+    | none => (s, "bad-op")
+  | ["expand", u, t] =>
+    match unhexL u, unhexL t with
+    | some u, some t =>
+      match expandFor u t with
+      | some r => (s, s!"ok {hexL r}")
+      | none => (s, "err")
+    | _, _ => (s, "bad-op")
+  | ["cert", ct, mode, login, pw, url, kind, _groups] =>
+    match parseCT ct, unhexL login, parseBool pw, unhexL url, parseKind kind with
+    | some ct, some login, some pw, some url, some kind =>
+      match mkCred s mode login pw with
+      | some cred => (s, modelCert s ct cred url kind)
+      | none => (s, "bad-op")
+    | _, _, _, _, _ => (s, "bad-op")
+  | _ => (s, "bad-op")
+
+/-! ### judge -/
+
+/-- the user the request authenticated as, by the property's wording: the typed name, normalised
+unless normalisation is disabled, for password credentials; the cookie's subject for a cookie -/
+def expectedUser (s : DS) (mode : String) (login : Str) (pw : Bool) : Option Str :=
+  if mode == "cookie" then some login
+  else if pw && accepts (normalise s.cfg.disableNorm login) then some (normalise s.cfg.disableNorm login)
+  else none
+
+def field (name : String) (fs : List String) : Option String :=
+  (fs.find? (·.startsWith (name ++ "="))).map fun f => (f.drop (name.length + 1)).toString
+
+def parseExtItems (s : String) : Option (List (Str × Str)) :=
+  if s == "-" then some [] else
+  (s.splitOn ",").mapM fun it =>
+    match it.splitOn ":" with
+    | [k, v] => do
+      let k' ← unhexL k
+      let v' ← unhexL v
+      pure (k', v')
+    | _ => none
+
+/-- the returned extension list is exactly the map the property describes -/
+def extsOK (s : DS) (u : Str) (items : List (Str × Str)) : Bool :=
+  items.all (fun kv => specExt fiveStandard (expandFor u) s.cfg.exts kv.1 == some kv.2) &&
+  (candidates' u).all (fun k =>
+    match specExt fiveStandard (expandFor u) s.cfg.exts k with
+    | some v => items.contains (k, v)
+    | none => true)
+where
+  candidates' (u : Str) : List Str :=
+    fiveStandard ++ s.cfg.exts.filterMap (fun e => expandFor u e.1)
+
+def judgeCert (s : DS) (mode : String) (login : Str) (pw : Bool) (url : Str) (impl : List String) : String :=
+  match impl with
+  | [] => "bad-op"
+  | status :: rest =>
+    if status == "PANIC" then "viol handler-panicked"
+    else if status != "200" then "ok"        -- refused: nothing was issued
+    else match expectedUser s mode login pw with
+      | none => "viol issued-without-authentication"
+      | some u =>
+        if u ≠ url then s!"viol issued-for-other-user auth={hexL u} url={hexL url}"
+        else match rest with
+          | "ssh" :: fs =>
+            if field "principals" fs != some (hexL u) then "viol principals"
+            else if field "key" fs != some "1" then "viol key-not-the-submitted-one"
+            else if field "type" fs != some "1" then "viol not-a-user-certificate"
+            else if field "sigkey_published" fs != some "1" then "viol signing-key-not-published"
+            else if field "verifies" fs != some "1" then "viol signature-does-not-verify"
+            else match (field "ext" fs).bind parseExtItems with
+              | some items => if extsOK s u items then "ok" else "viol extensions"
+              | none => "viol extensions-undecodable"
+          | "x509" :: fs =>
+            if field "cn" fs != some (hexL u) then "viol common-name"
+            else if field "key" fs != some "1" then "viol key-not-the-submitted-one"
+            else if field "ca" fs != some "0" then "viol is-a-CA"
+            else if !(((field "eku" fs).getD "").splitOn ",").contains "2" then "viol no-client-auth-usage"
+            else if field "verifies" fs != some "1" then "viol does-not-verify-under-published-CA"
+            else "ok"
+          | _ => "viol issued-but-undecodable"
+
+def judgeStep (s : DS) : List String → DS × String
+  | "cfg" :: rest =>
+    match parseCfg rest with
+    | some s' => (s', "ok")
+    | none => (s, "bad-op")
+  | "cert" :: _ct :: mode :: login :: pw :: url :: _kind :: _groups :: "|" :: impl =>
+    match unhexL login, parseBool pw, unhexL url with
+    | some login, some pw, some url => (s, judgeCert s mode login pw url impl)
+    | _, _, _ => (s, "bad-op")
+  | _ => (s, "bad-op")
+
+def handler (mode : String) : Option Handler :=
+  if mode == "model" then some { σ := DS, init := DS.init, step := modelStep }
+  else if mode == "judge" then some { σ := DS, init := DS.init, step := judgeStep }
+  else none
 
 end KM.Driver.C02
